@@ -72,7 +72,8 @@ def rand_scalar(rng, preferred=False):
     if r < 0.5:
         n = gen.rand_u(rng, 64); return ('nint', rand_width(rng, n, preferred), n)
     if r < 0.6:
-        b = gen.rand_bytes(rng, rng.randint(0, 6)); return ('bytes', rand_width(rng, len(b), preferred), b)
+        b = gen.rand_bytes(rng, rng.choice([24, 33, 70, 256]) if rng.random() < 0.08 else rng.randint(0, 6))
+        return ('bytes', rand_width(rng, len(b), preferred), b)
     if r < 0.7:
         b = gen.rand_text(rng, 4).encode(); return ('text', rand_width(rng, len(b), preferred), b)
     if r < 0.8: return ('simple', rng.choice(SIMPLE_VALID))
@@ -114,6 +115,11 @@ def small_scalars():
             out.append(('bytes', w, b))
         for s in (b'', b'a', 'é€'.encode()):
             out.append(('text', w, s))
+    for n in (24, 31, 32, 33, 64, 255, 256, 300):
+        b = bytes((i * 37 + n) % 256 for i in range(n))
+        out.append(('bytes', min_width(n), b))
+        out.append(('text', min_width(n), bytes(0x61 + (i % 26) for i in range(n))))
+    out.append(('bytesI', [(1, bytes(range(40))), (0, b'\x01')]))
     out += [('bytesI', []), ('bytesI', [(0, b'\x01')]), ('bytesI', [(1, b''), (0, b'\x02\x03')]),
             ('textI', []), ('textI', [(0, b'a')]), ('textI', [(2, b'ab'), (0, 'é'.encode())])]
     out += [('simple', n) for n in (0, 19, 20, 21, 22, 23, 32, 255)]
